@@ -40,7 +40,11 @@ def run(ctx: Ctx) -> None:
         "D12.3 the seed memo of the hardness objective is keyed by exactly "
         "what the seeds are computed from; D12.4 the key the packing log "
         "parser looks for equals the key under which the space logs the "
-        "instance name (constants folded from moptipy's source). Not "
+        "instance name (constants folded from moptipy's source); D12.6 a "
+        "packing result parsed from a log holds, under each objective's "
+        "name, that objective's evaluate(packing) and its own lower/upper "
+        "bound, bin_bounds[key](instance) under key and the instance's "
+        "sizes. Not "
         "decided: termination, re-evaluation of logged values, identical "
         "reruns (run behaviour).")
     for rid, txt in (("D12.1", "no unseeded / environment dependent source"),
@@ -53,6 +57,9 @@ def run(ctx: Ctx) -> None:
     _nested_seeds(ctx)
     _memo(ctx)
     _log_key(ctx)
+    ctx.rule("D12.6", "result records are assembled from the parsed packing, "
+             "its instance and the named objectives")
+    _record_assembly(ctx)
     ctx.assumptions += [
         "P4: process.get_random() is the run's seeded generator; moptipy "
         "derives per-run seeds from the instance name",
@@ -388,3 +395,122 @@ def _log_key(ctx: Ctx) -> None:
            "the logged packing text is parsed by PackingSpace.from_str "
            "(which validates, C04 D4.2)", construct="parse via from_str",
            nontrivial=False)
+
+
+# ------------------------------------------------------------------ D12.6
+def _record_assembly(ctx: Ctx) -> None:
+    """A result record holds the values / bounds of the objectives whose
+    names key them, computed for the parsed packing and its instance."""
+    repo = ctx.repo
+    mod = repo.module("moptipyapps.binpacking2d.packing_result")
+    fi = mod.funcs.get("from_packing_and_end_result")
+    ctx.need(fi is not None, "from_packing_and_end_result")
+    problems: list[str] = []
+
+    def src(n: ast.AST) -> str:
+        return ast.unparse(n).replace(" ", "")
+    p = fi.params
+    pack, objs, bbs = p[1], p[2], p[3]
+    inst = None
+    for s in func_body(fi):
+        if isinstance(s, (ast.Assign, ast.AnnAssign)) and s.value is not \
+                None and src(s.value) == f"{pack}.instance":
+            tg = s.targets[0] if isinstance(s, ast.Assign) else s.target
+            inst = tg.id if isinstance(tg, ast.Name) else None
+    if inst is None:
+        problems.append("the instance is not taken from the packing")
+    else:
+        # bounds: LOWER <- lower_bound(), UPPER <- upper_bound()
+        pairs = {}
+        for s in ast.walk(fi.node):
+            if isinstance(s, ast.Assign) and isinstance(
+                    s.targets[0], ast.Subscript) and isinstance(
+                    s.targets[0].slice, ast.Call) and src(
+                    s.targets[0].slice.func) == "csv_scope":
+                k = s.targets[0].slice
+                which = repo.const(mod, k.args[1]) if len(
+                    k.args) == 2 else None
+                pairs[which] = (src(k.args[0]), src(s.value))
+        for which, meth in (("lowerBound", "lower_bound"),
+                            ("upperBound", "upper_bound")):
+            got = pairs.get(which)
+            if got is None or not got[0].startswith("str(") or got[1] != \
+                    f"{got[0][4:-1]}.{meth}()":
+                problems.append(
+                    f"the {which} column of an objective is not filled "
+                    f"from its own {meth}() (found {got})")
+        # the objectives are instantiated for the packing's instance
+        gens = [g for g in ast.walk(fi.node) if isinstance(
+            g, ast.GeneratorExp) and src(g.generators[0].iter) == objs]
+        if not any(src(g.elt) == f"{src(g.generators[0].target)}({inst})"
+                   for g in gens):
+            problems.append("the objectives are not created for the "
+                            "packing's instance")
+        # bin bounds: key -> function(instance)
+        dcs = [d for d in ast.walk(fi.node) if isinstance(d, ast.DictComp)]
+        if not any(src(d.value) == f"{bbs}[{src(d.key)}]({inst})"
+                   for d in dcs):
+            problems.append("the bin bounds are not `bin_bounds[key]"
+                            "(instance)` under their key")
+        # values: objective_values[str(objf)] = objf.evaluate(packing)
+        lp = next((s for s in func_body(fi) if isinstance(s, ast.For)
+                   and any(isinstance(x, ast.Call) and src(x.func).endswith(
+                       ".evaluate") for x in ast.walk(s))), None)
+        okv = False
+        ov = None
+        if lp is not None and isinstance(lp.target, ast.Name):
+            o = lp.target.id
+            env = {}
+            for s in lp.body:
+                if isinstance(s, (ast.Assign, ast.AnnAssign)) and \
+                        s.value is not None:
+                    tg = s.targets[0] if isinstance(s, ast.Assign) \
+                        else s.target
+                    if isinstance(tg, ast.Name):
+                        env[tg.id] = src(s.value)
+                    elif isinstance(tg, ast.Subscript):
+                        key = env.get(src(tg.slice), src(tg.slice))
+                        val = env.get(src(s.value), src(s.value))
+                        if key == f"str({o})" and val == \
+                                f"{o}.evaluate({pack})":
+                            okv = True
+                            ov = src(tg.value)
+        if not okv:
+            problems.append("an objective's value is not stored as "
+                            "values[str(objf)] = objf.evaluate(packing)")
+        # the record
+        mk = next((c for c in ast.walk(fi.node) if isinstance(c, ast.Call)
+                   and src(c.func) == "PackingResult"), None)
+        if mk is None:
+            problems.append("no PackingResult is created")
+        else:
+            kw = {k.arg: src(k.value) for k in mk.keywords}
+            want = {"end_result": p[0], "n_items": f"{inst}.n_items",
+                    "n_different_items": f"{inst}.n_different_items",
+                    "bin_width": f"{inst}.bin_width",
+                    "bin_height": f"{inst}.bin_height",
+                    "objectives": ov or "?"}
+            for k, v in want.items():
+                if kw.get(k) != v:
+                    problems.append(f"PackingResult({k}={kw.get(k)}), "
+                                    f"expected {v}")
+            # row = (bin bounds, objective objects, objective bounds)
+            rows = [s for s in ast.walk(fi.node) if isinstance(s, ast.Assign)
+                    and src(s.targets[0]) == "row" and isinstance(
+                        s.value, ast.Tuple) and len(s.value.elts) == 3]
+            if len(rows) == 1:
+                e = rows[0].value.elts
+                ok_row = isinstance(e[0], ast.DictComp) and "obounds" in \
+                    src(e[2]) and kw.get("bin_bounds") == "row[0]" and \
+                    kw.get("objective_bounds") == "row[2]"
+                if not ok_row:
+                    problems.append("the cached row (bin bounds, objectives, "
+                                    "objective bounds) is not unpacked into "
+                                    "the matching record fields")
+    ctx.ob("D12.6", fi, fi.node, not problems,
+           "a packing result is assembled from: objectives created for the "
+           "packing's instance, their own lower_bound()/upper_bound() under "
+           "<name>.lowerBound/.upperBound, evaluate(packing) under <name>, "
+           "bin_bounds[key](instance) under key, and the instance's sizes"
+           if not problems else "; ".join(problems),
+           construct="result record assembly")
